@@ -2,8 +2,9 @@
    only; N/positive stay inductive. *)
 Require Extraction.
 Require Import ExtrOcamlBasic.
-From DV Require Import Lib.Base Oom.OomTypes Oom.Machine Oom.Handlers.
+From DV Require Import Lib.Base Oom.OomTypes Oom.Machine Oom.Handlers Oom.DString.
 Extraction Language OCaml.
 Extraction "model_oom.ml"
-  init_bus step step_f step_oom fail_set fail_at no_fail alloc_count recipients
-  find_conn lookup b_conns b_services b_pending c_id c_active c_owned c_rules requester.
+  init_bus init_bus_full step step_f step_oom fail_set fail_at no_fail alloc_count recipients
+  find_conn lookup b_conns b_services b_pending c_id c_active c_owned c_rules requester
+  run_sop sop_pre run_sops header_set_field d_bytes d_alloc PAD JUNK.
